@@ -75,10 +75,14 @@ pub struct World {
     conns: BTreeMap<u64, (P, P)>,
     pub counters: BTreeMap<&'static str, u64>,
     connect_wakers: Vec<Waker>,
+    /// (connection, time) of every TCP endpoint that was dropped, in order
+    pub drops: Vec<(u64, Duration)>,
+    /// number of events per connection
+    pub events_by_conn: BTreeMap<u64, u64>,
 }
 impl Default for World {
     fn default() -> Self {
-        World { cfg: NetCfg::default(), rng: 1, tcp: BTreeMap::new(), unix: BTreeMap::new(), udp: BTreeMap::new(), dns: BTreeMap::new(), next_port: 40000, next_conn: 0, t0: None, digest: 0xcbf2_9ce4_8422_2325, events: 0, log: vec![], connects: vec![], conns: BTreeMap::new(), counters: BTreeMap::new(), connect_wakers: vec![] }
+        World { cfg: NetCfg::default(), rng: 1, tcp: BTreeMap::new(), unix: BTreeMap::new(), udp: BTreeMap::new(), dns: BTreeMap::new(), next_port: 40000, next_conn: 0, t0: None, digest: 0xcbf2_9ce4_8422_2325, events: 0, log: vec![], connects: vec![], conns: BTreeMap::new(), counters: BTreeMap::new(), connect_wakers: vec![], drops: vec![], events_by_conn: BTreeMap::new() }
     }
 }
 thread_local! {
@@ -135,6 +139,7 @@ impl World {
     fn ev(&mut self, kind: &'static str, conn: u64, len: usize) {
         let t = self.now();
         self.events += 1;
+        *self.events_by_conn.entry(conn).or_insert(0) += 1;
         for x in [kind.len() as u64 ^ (kind.as_bytes()[0] as u64) << 8 ^ (kind.as_bytes()[kind.len() - 1] as u64) << 16, conn, len as u64, t.as_micros() as u64] {
             for i in 0..8 {
                 self.digest = (self.digest ^ ((x >> (i * 8)) & 0xff)).wrapping_mul(0x1000_0000_01b3);
@@ -158,6 +163,17 @@ impl World {
             p.wake_all();
         }
         self.ev("tcp-reset", conn, 0);
+        true
+    }
+    /// The path of a connection dies without a word (partition, or the peer host hangs): from now
+    /// on neither end receives anything more - no data, no end-of-stream, no reset, not even what
+    /// was already on its way. Writers go on filling their send buffer until it is full.
+    pub fn blackhole_conn(&mut self, conn: u64) -> bool {
+        let Some((a, b)) = self.conns.get(&conn).cloned() else { return false };
+        for p in [a, b] {
+            p.lock().unwrap().frozen = true;
+        }
+        self.ev("tcp-blackhole", conn, 0);
         true
     }
     /// Reset every connection established towards `port`.
@@ -251,6 +267,8 @@ struct Pipe {
     /// the writer shut down or went away
     fin: bool,
     rst: bool,
+    /// nothing is delivered any more (see `World::blackhole_conn`)
+    frozen: bool,
     reader_gone: bool,
     rwaker: Option<Waker>,
     wwaker: Option<Waker>,
@@ -258,7 +276,7 @@ struct Pipe {
 }
 impl Pipe {
     fn new(cap: usize) -> P {
-        Arc::new(Mutex::new(Pipe { segs: VecDeque::new(), buffered: 0, cap, fin: false, rst: false, reader_gone: false, rwaker: None, wwaker: None, last_ready: None }))
+        Arc::new(Mutex::new(Pipe { segs: VecDeque::new(), buffered: 0, cap, fin: false, rst: false, frozen: false, reader_gone: false, rwaker: None, wwaker: None, last_ready: None }))
     }
     fn wake_all(&mut self) {
         if let Some(w) = self.rwaker.take() {
@@ -379,6 +397,8 @@ impl Drop for TcpStream {
         let _ = WORLD.try_with(|w| {
             if let Ok(mut w) = w.try_borrow_mut() {
                 w.ev("tcp-drop", conn, 0);
+                let t = w.now();
+                w.drops.push((conn, t));
             }
         });
     }
@@ -391,6 +411,10 @@ impl AsyncRead for TcpStream {
             return Poll::Pending;
         }
         let mut p = this.rx.lock().unwrap();
+        if p.frozen {
+            p.rwaker = Some(cx.waker().clone());
+            return Poll::Pending;
+        }
         if p.rst {
             return Poll::Ready(Err(io::ErrorKind::ConnectionReset.into()));
         }
@@ -452,7 +476,7 @@ impl AsyncWrite for TcpStream {
         if p.fin {
             return Poll::Ready(Err(io::ErrorKind::BrokenPipe.into()));
         }
-        if p.reader_gone {
+        if p.reader_gone && !p.frozen {
             return Poll::Ready(Err(io::ErrorKind::ConnectionReset.into()));
         }
         if b.is_empty() {
@@ -730,8 +754,12 @@ impl UdpSocket {
             return Err(io::Error::other("Address family not supported by protocol (os error 97)"));
         }
         let dst = with(|w| w.udp.get(&to.port()).map(|(ip, st)| (*ip, st.clone())));
-        // source address as the receiver sees it: our bound ip, or the destination's ip if unspecified
-        let src = if self.addr.ip().is_unspecified() { SocketAddr::new(to.ip(), self.addr.port()) } else { self.addr };
+        // source address as the receiver sees it: our bound ip; a wildcard-bound socket gets the
+        // address the route to the destination prefers - on the one simulated host that is the
+        // primary loopback address (Linux: `local 127.0.0.0/8 dev lo src 127.0.0.1`), whatever
+        // local address the peer had sent to
+        let primary: IpAddr = if to.is_ipv4() { IpAddr::from([127, 0, 0, 1]) } else { IpAddr::V6(std::net::Ipv6Addr::LOCALHOST) };
+        let src = if self.addr.ip().is_unspecified() { SocketAddr::new(if to.ip().is_loopback() { primary } else { to.ip() }, self.addr.port()) } else { self.addr };
         let (lost, dup, reorder, lat, lat2) = with(|w| {
             let c = w.cfg.clone();
             (w.chance(c.udp_loss), w.chance(c.udp_dup), w.chance(c.udp_reorder), w.latency(), w.latency())
